@@ -31,7 +31,8 @@
 (***************************************************************************)
 EXTENDS Integers, Sequences, FiniteSets, TLC
 
-CONSTANTS Handles, Ids, MaxOps, MaxKeys, Starts   \* Starts: initial configurations ("plain", "both_in_txn")
+CONSTANTS Handles, Ids, MaxOps, MaxKeys, Starts,   \* Starts: initial configurations ("plain", "both_in_txn")
+          Kinds                                   \* statement kinds that are generated (a subset focuses the exploration)
 NoRow == [id |-> 0, v |-> 0]
 Keys == 1..MaxKeys
 
@@ -171,8 +172,11 @@ Init == /\ start \in Starts
         /\ nops = 0 /\ hist = <<>> /\ clog = {}
 
 Next == \E h \in Handles :
-           \/ Begin(h) \/ Commit(h) \/ Abort(h, "rollback") \/ Abort(h, "drop") \/ Read(h)
-           \/ \E i \in Ids : Insert(h, i) \/ Update(h, i) \/ Delete(h, i)
+           \/ Begin(h) \/ Commit(h) \/ Abort(h, "rollback")
+           \/ ("drop" \in Kinds /\ Abort(h, "drop")) \/ ("read" \in Kinds /\ Read(h))
+           \/ \E i \in Ids : \/ ("insert" \in Kinds /\ Insert(h, i))
+                              \/ ("update" \in Kinds /\ Update(h, i))
+                              \/ ("delete" \in Kinds /\ Delete(h, i))
 Spec == Init /\ [][Next]_vars
 
 (* ------------------------------------------------------------------ what the models guarantee *)
